@@ -785,7 +785,13 @@ fn entry_op<const N: usize>(cx: &mut Cx, m: &mut MapN<N>, k: K, mods: &[i32], fi
             refval(cx, r)
         }
         EntryEnd::Key => {
-            let s = mm(|| e.key()).show();
+            let kr = mm(|| e.key());
+            // an occupied entry shows the key that is stored: a reference into the container
+            // (a vacant entry owns the key it was made with, outside the container)
+            if kind == "occ" {
+                cx.slot(kr as *const Key as usize);
+            }
+            let s = kr.show();
             mm(|| drop(e));
             s
         }
@@ -795,7 +801,11 @@ fn entry_op<const N: usize>(cx: &mut Cx, m: &mut MapN<N>, k: K, mods: &[i32], fi
         }
         fin => match e {
             Entry::Occupied(mut o) => match fin {
-                EntryEnd::OccKey => mm(|| o.key()).show(),
+                EntryEnd::OccKey => {
+                    let kr = mm(|| o.key());
+                    cx.slot(kr as *const Key as usize);
+                    kr.show()
+                }
                 EntryEnd::OccGet => {
                     let r = mm(|| o.get());
                     format!("@{}={}", cx.slot(r as *const Val as usize), r.show())
